@@ -26,6 +26,9 @@ for pid, what, ref in (('C14', 'list behaviour (len, iteration, indexing incl. n
        text='One exhaustive symbolic exploration per (operation, pre-state size): the pre-state (row kinds with str/int/Ref/no ids, id index never built or built, version explicit/default/auto-upgraded) and all arguments are symbolic selectors/ints; the real Grid method and a Python list run in lock step and are compared through ' + what + '. Also a two-step family and a derived-grid (slice/filter) family. The work list empties, so every path within the bound is decided.',
        note='Trusts the symx explorer (proxies + z3) and the list model; rows are concrete dicts chosen by symbolic selectors; bounds: <=2 (quick) / <=3 (thorough) rows in the pre-state; counterexamples replayed on plain CPython.', ref=ref)
 CHECKS['C16']['engine'] = SYMX
+CHECKS['C19'] = dict(engine=SYMX, technique='bounded symbolic execution of the real __eq__/__ne__/__hash__/Grid.__eq__ (own explorer, z3 decides every branch) against a kind-aware reference equality; replay',
+   text='One exhaustive exploration per (law, first operand kind): operand kinds are symbolic selectors over an 18-kind catalogue, numeric payloads symbolic ints (exact rational arithmetic where floats mix in), text/float/unit payloads from boundary catalogues. Laws: no exception (except Quantity unit mismatch), symmetry, ==/!= complementary, kind distinction, reflexivity/copy/deepcopy, hash agreement, transitivity on numeric kinds, singleton identity, Grid == copy and single-position differences give False.',
+   note='Trusts the symx explorer and the reference equality in the harness; NaN reflexivity excluded (IEEE); MODE_PINT off; counterexamples replayed on plain CPython.', ref='5 C19')
 NA_REASON = {}
 
 def main():
